@@ -274,52 +274,52 @@ theorem paramsMatch_sound (cr : Crashes) (d : Doc) (m : Method) (h : paramsMatch
 
 /-! ### no internal error -/
 
-theorem no_internal_of_master (cr : Crashes) : ∀ (steps : List Step) (s : State) (a : Args) (e : String),
-    (s.isMaster = true ∨ s.masterSet = true) → a.instExact = true → a.isGroup = false →
-    (runSteps cr steps s a).2 ≠ .internal e
-  | [], _, _, _, _, _, _ => by simp [runSteps]
-  | .raise c f :: rest, s, a, e, hm, hx, hg => by
-    by_cases hp : checkPasses s a c f = true
-    · simp only [runSteps, hp, if_true]; exact no_internal_of_master cr rest s a e hm hx hg
-    · simp [runSteps, hp]
-  | .effect n :: rest, s, a, e, hm, hx, hg => by
-    have hc : effectCrash cr s n = none := by
-      unfold effectCrash
-      rcases hm with h | h <;> simp [h]
-    simp only [runSteps, hc]
-    exact no_internal_of_master cr rest _ a e hm hx hg
-  | .lookupInst :: rest, s, a, e, hm, hx, hg => by
-    simp only [runSteps, hx, if_true]; exact no_internal_of_master cr rest s a e hm hx hg
-  | .derefProcess :: rest, s, a, e, hm, hx, hg => by
-    simp only [runSteps, hg, Bool.false_eq_true, if_false]; exact no_internal_of_master cr rest s a e hm hx hg
+theorem effectCrash_none_of_master (cr : Crashes) (s : State) (n : String) (h : (s.isMaster || s.masterSet) = true) :
+    effectCrash cr s n = none := by
+  unfold effectCrash
+  simp only [Bool.or_eq_true] at h
+  rcases h with h | h <;> simp [h]
 
-theorem no_internal_of_crashFree (cr : Crashes) : ∀ (steps : List Step), crashFree cr steps = true →
-    ∀ (s : State) (a : Args) (e : String), (runSteps cr steps s a).2 ≠ .internal e
+theorem effectCrash_none_of_absent (cr : Crashes) (s : State) (n : String) (h : cr.any (fun x => x.1 == n) = false) :
+    effectCrash cr s n = none := by
+  have hfind : cr.find? (fun x => x.1 == n) = none := by
+    rw [List.find?_eq_none]
+    intro x hx
+    rw [List.any_eq_false] at h
+    exact h x hx
+  unfold effectCrash; simp [hfind]
+
+/-- a guarded method never lets a non-RPC exception escape, provided the namespec is not a group namespec where a
+    process is dereferenced without test (`deref = true`); unconditionally when there is no such dereference -/
+theorem no_internal_of_guarded (cr : Crashes) (deref : Bool) (a : Args) (e : String) (hd : deref = true → a.isGroup = false) :
+    ∀ (steps : List Step) (g : Bool) (s : State), crashGuarded cr deref g steps = true →
+      (g = true → (s.isMaster || s.masterSet) = true) → (runSteps cr steps s a).2 ≠ .internal e
   | [], _, _, _, _ => by simp [runSteps]
-  | .raise c f :: rest, h, s, a, e => by
-    have h' : crashFree cr rest = true := by
-      unfold crashFree at h ⊢; simp only [List.all_cons, Bool.and_eq_true] at h; exact h.2
+  | .raise c f :: rest, g, s, h, hg => by
+    simp only [crashGuarded] at h
     by_cases hp : checkPasses s a c f = true
-    · simp only [runSteps, hp, if_true]; exact no_internal_of_crashFree cr rest h' s a e
+    · simp only [runSteps, hp, if_true]
+      refine no_internal_of_guarded cr deref a e hd rest _ s h ?_
+      intro hg'
+      simp only [Bool.or_eq_true, beq_iff_eq] at hg'
+      rcases hg' with hg' | hg'
+      · exact hg hg'
+      · subst hg'; simpa [checkPasses] using hp
     · simp [runSteps, hp]
-  | .effect n :: rest, h, s, a, e => by
-    unfold crashFree at h
-    simp only [List.all_cons, Bool.and_eq_true, Bool.not_eq_true'] at h
-    have h' : crashFree cr rest = true := by unfold crashFree; exact h.2
-    have hfind : cr.find? (fun x => x.1 == n) = none := by
-      rw [List.find?_eq_none]
-      intro x hx
-      have := h.1
-      rw [List.any_eq_false] at this
-      exact this x hx
+  | .effect n :: rest, g, s, h, hg => by
+    simp only [crashGuarded, Bool.and_eq_true, Bool.or_eq_true, Bool.not_eq_true'] at h
     have hc : effectCrash cr s n = none := by
-      unfold effectCrash; simp [hfind]
+      rcases h.1 with h1 | h1
+      · exact effectCrash_none_of_master cr s n (hg h1)
+      · exact effectCrash_none_of_absent cr s n h1
     simp only [runSteps, hc]
-    exact no_internal_of_crashFree cr rest h' _ a e
-  | .lookupInst :: rest, h, _, _, _ => by
-    unfold crashFree at h; simp at h
-  | .derefProcess :: rest, h, _, _, _ => by
-    unfold crashFree at h; simp at h
+    exact no_internal_of_guarded cr deref a e hd rest g _ h.2 hg
+  | .lookupInst :: rest, _, _, h, _ => by simp [crashGuarded] at h
+  | .derefProcess :: rest, g, s, h, hg => by
+    simp only [crashGuarded, Bool.and_eq_true] at h
+    have hgrp := hd h.1
+    simp only [runSteps, hgrp, Bool.false_eq_true, if_false]
+    exact no_internal_of_guarded cr deref a e hd rest g s h.2 hg
 
 /-! ### served inside the documented states -/
 
@@ -360,6 +360,7 @@ theorem not_state_rejected (cr : Crashes) (d : Doc) (a : Args) (fsm : St) (hin :
       | masterUnset => exact hx _ _ (List.mem_cons_self ..) rfl rfl
       | userOption => exact hx _ _ (List.mem_cons_self ..) rfl rfl
       | jobsIdle => exact hx _ _ (List.mem_cons_self ..) rfl rfl
+      | masterKnown => exact hx _ _ (List.mem_cons_self ..) rfl rfl
       | strategy => simp [Check.isStateLike] at h1
       | appName => simp [Check.isStateLike] at h1
       | namespec => simp [Check.isStateLike] at h1
@@ -399,12 +400,5 @@ theorem not_state_rejected (cr : Crashes) (d : Doc) (a : Args) (fsm : St) (hin :
     · have hi' : a.isGroup = false := by simpa using hi
       simp only [runSteps, hi', Bool.false_eq_true, if_false]
       exact not_state_rejected cr d a fsm hin hfinal rest s hs hg' hx'
-
-theorem modesPass_sound (s : State) (a : Args) (h : modesPass s = true) (c : Check) (f : Fault)
-    (h1 : c.isStateLike = true) (h2 : c.isState = false) : checkPasses s a c f = true := by
-  unfold modesPass at h
-  simp only [Bool.and_eq_true, Bool.not_eq_true'] at h
-  obtain ⟨⟨hm, hu⟩, hj⟩ := h
-  cases c <;> simp [Check.isStateLike, Check.isState] at h1 h2 <;> simp [checkPasses, hm, hu, hj]
 
 end Supv.Lemmas.Rpc
